@@ -575,6 +575,140 @@ theorem removeValueInAttrset_agree (ts : Node) (npath : Text)
             | some finalKey =>
               exact setDelItem_agree hA parent finalKey hparent (hsT _ (getLast?_mem hlast))
 
+/-- the tokens of the target set and of every scope layer are in `T` -/
+structure DocWithin (T : List Text) (d : Doc) : Prop where
+  target : Within T d.target
+  scope : WithinL T d.scope
+  stack : ∀ l ∈ d.stack, WithinL T l.scope
+
+omit hA in
+theorem within_layerAsSet {sid : Nat} {l : Layer} (h : WithinL T l.scope) : Within T (layerAsSet sid l) := by
+  intro t ht
+  exact h t (by simpa [layerAsSet, toks] using ht)
+
+omit hA in
+theorem collect_within {d : Doc} (hd : DocWithin T d) : ∀ l ∈ collectScopeLayers d, WithinL T l.scope := by
+  intro l hl
+  unfold collectScopeLayers at hl
+  rcases List.mem_append.mp hl with h | h
+  · split at h
+    · cases h
+    · simp only [List.mem_singleton] at h
+      subst h
+      exact hd.scope
+  · exact hd.stack l (List.mem_filter.mp h).1
+
+omit hA in
+theorem onLayer_congr (layers : List Layer) (fd : Bool) (idx : Nat) (op1 op2 : Node → EditM Unit)
+    (h : ∀ l, layers[idx]? = some l → ∀ sid, op1 (layerAsSet sid l) = op2 (layerAsSet sid l)) :
+    onLayer layers fd idx op1 = onLayer layers fd idx op2 := by
+  apply em_ext; intro d
+  unfold onLayer
+  cases hl : layers[idx]? with
+  | none => rfl
+  | some l => simp only [h l hl]
+
+/-- the part of an NPath after its `@` scope selectors (`_split_scope_npath`) -/
+def scopeRest (npath : Text) : Text := npath.drop (npath.takeWhile (· == '@')).length
+
+omit hA in
+theorem splitScopeNpath_rest (npath : Text) (depth : Nat) (rest : Text)
+    (h : splitScopeNpath npath = .ok (some (depth, rest))) : rest = scopeRest npath := by
+  unfold splitScopeNpath at h
+  simp only [] at h
+  split at h
+  · cases h
+  · split at h
+    · cases h
+    · simp only [Except.ok.injEq, Option.some.injEq, Prod.mk.injEq] at h
+      exact h.2.symm
+
+omit hA in
+theorem splitScopeNpath_none (npath : Text) (h : splitScopeNpath npath = .ok none) :
+    scopeRest npath = npath := by
+  unfold splitScopeNpath at h
+  simp only [] at h
+  split at h
+  · rename_i h0; simp [scopeRest, h0]
+  · split at h <;> cases h
+
+theorem onLayer_set_agree (layers : List Layer) (fd : Bool) (idx : Nat) (p : Text) (v : Node)
+    (hl : ∀ l ∈ layers, WithinL T l.scope) (hp : PathOK T p) :
+    onLayer layers fd idx (fun s => @setValueInAttrset I1 s false p v) =
+      onLayer layers fd idx (fun s => @setValueInAttrset I2 s false p v) := by
+  apply onLayer_congr
+  intro l hget sid
+  exact setValueInAttrset_agree hA _ false p v (within_layerAsSet (hl l (List.mem_of_getElem? hget))) hp
+
+theorem onLayer_rm_agree (layers : List Layer) (fd : Bool) (idx : Nat) (p : Text)
+    (hl : ∀ l ∈ layers, WithinL T l.scope) (hp : PathOK T p) :
+    onLayer layers fd idx (fun s => @removeValueInAttrset I1 s p) =
+      onLayer layers fd idx (fun s => @removeValueInAttrset I2 s p) := by
+  apply onLayer_congr
+  intro l hget sid
+  exact removeValueInAttrset_agree hA _ p (within_layerAsSet (hl l (List.mem_of_getElem? hget))) hp
+
+omit hA in
+theorem resolveTarget_ok (d : Doc) (ts : Node) (h : resolveTarget d = .ok ts) : ts = d.target := by
+  unfold resolveTarget at h
+  split at h
+  · cases h
+  · cases h
+  · injection h with h; exact h.symm
+
+theorem setValue_agree (npath : Text) (value : ValueArg) (d : Doc)
+    (hd : DocWithin T d) (hp : PathOK T (scopeRest npath)) :
+    @setValue I1 npath value d = @setValue I2 npath value d := by
+  unfold setValue
+  cases value with
+  | empty => rfl
+  | invalid => rfl
+  | one v =>
+    simp only []
+    split
+    · rfl
+    · rfl
+    · cases hsp : splitScopeNpath npath with
+      | error e => rfl
+      | ok r =>
+        cases r with
+        | none =>
+          simp only []
+          cases ht : resolveTarget d with
+          | error e => rfl
+          | ok ts =>
+            have hts : ts = d.target := resolveTarget_ok d ts ht
+            subst hts
+            simp only []
+            rw [setValueInAttrset_agree hA d.target true npath v hd.target
+              (by rw [← splitScopeNpath_none npath hsp]; exact hp)]
+        | some dr =>
+          obtain ⟨depth, rest⟩ := dr
+          have hrest := splitScopeNpath_rest npath depth rest hsp
+          subst hrest
+          simp only []
+          cases ht : resolveTarget d with
+          | error e => rfl
+          | ok ts =>
+            have hts : ts = d.target := resolveTarget_ok d ts ht
+            subst hts
+            simp only []
+            rw [setValueInAttrset_agree hA d.target true (scopeRest npath) v hd.target hp]
+            by_cases hc : ((collectScopeLayers d).isEmpty && depth == 1) = true
+            · simp only [if_pos hc]
+              cases hfmt : formatNPath currentAnchor (scopeRest npath) with
+              | error e => rfl
+              | ok segs =>
+                simp only []
+                rw [pathExistsInAttrset_agree hA d.target segs hd.target (fun s h => (hp segs hfmt s h).1)]
+                by_cases hpe : @pathExistsInAttrset I2 d.target segs = true
+                · simp only [if_pos hpe]
+                · simp only [if_neg hpe]
+                  rw [onLayer_set_agree hA _ false _ (scopeRest npath) v
+                    (by intro l hl; simp only [List.mem_singleton] at hl; subst hl; intro t ht; simp [toksL] at ht) hp]
+            · simp only [if_neg hc]
+              rw [onLayer_set_agree hA _ true _ (scopeRest npath) v (collect_within hd) hp]
+
 end
 
 end Nima
